@@ -19,6 +19,22 @@ def replay(pid, path):
     if rec.get("kind") == "kani":
         import kani_runner
         return kani_runner.replay(pid, rec)
+    fi = rec.get("failing_input")
+    if fi:
+        import finder
+        case = fi["case"]
+        hexcase = case if all(c in "0123456789abcdef" for c in case) and len(case) % 2 == 0 else None
+        r = finder.search(pid, case=hexcase)
+        if r is None:
+            print("UNDECIDED: the finder could not be built or run on the current tree")
+        elif r.get("found"):
+            print(f"failing input reproduced on the current tree: {r['case'][:300]}")
+            print(f"  expected: {r['expected'][:300]}")
+            print(f"  actual:   {r['actual'][:300]}")
+            print(f"VIOLATION property={pid} replay={path}")
+            return 1
+        else:
+            print("the recorded input no longer fails on the current tree; re-checking the obligations")
     os.makedirs(driver.BUILD, exist_ok=True)
     workdir = tempfile.mkdtemp(prefix=f"replay-{pid}-", dir=driver.BUILD)
     try:
